@@ -28,6 +28,8 @@ import (
 type caseLine struct {
 	Cmds [][]int `json:"cmds"`
 	Hb   []int   `json:"hb"`
+	// Inline[i]: command i travels in the one-line form ("SET k v\r\n") the decoder accepts besides multi-bulk arrays
+	Inline []bool `json:"inline,omitempty"`
 }
 
 type fragReader struct {
@@ -101,23 +103,43 @@ func main() {
 		var stream []byte
 		var src [][][]byte
 		lensAll := [][]int{}
+		inl := []bool{}
 		for i, lens := range c.Cmds {
 			for h := 0; h < c.Hb[i]; h++ {
 				stream = append(stream, '\n')
 			}
 			args := [][]byte{[]byte("rpush")}
 			ls := []int{5}
+			inline := i < len(c.Inline) && c.Inline[i]
+			inl = append(inl, inline)
 			for j, n := range lens {
-				args = append(args, content(n, i*7+j))
+				if inline {
+					// one-line form: arguments are separated by blanks, so they hold none (and are not empty)
+					if n < 1 {
+						n = 1
+					}
+					a := make([]byte, n)
+					for q := range a {
+						a[q] = byte('a' + (q+j+i)%26)
+					}
+					args = append(args, a)
+				} else {
+					args = append(args, content(n, i*7+j))
+				}
 				ls = append(ls, n)
 			}
-			stream = append(stream, hx.EncodeCmd(args...)...)
+			if inline {
+				stream = append(stream, bytes.Join(args, []byte(" "))...)
+				stream = append(stream, '\r', '\n')
+			} else {
+				stream = append(stream, hx.EncodeCmd(args...)...)
+			}
 			src = append(src, args)
 			lensAll = append(lensAll, ls)
 		}
 		emit := func(site string, os_ []obs) {
 			id += *shards
-			tr.Emit(map[string]interface{}{"id": id, "site": site, "start": start, "hb": c.Hb, "cmds": lensAll, "obs": os_})
+			tr.Emit(map[string]interface{}{"id": id, "site": site, "start": start, "hb": c.Hb, "cmds": lensAll, "inl": inl, "obs": os_})
 			nObs++
 		}
 		compare := func(i int, argv [][]byte, name string) (o obs) {
@@ -177,7 +199,15 @@ func main() {
 		// (3) writer -> decoder round trip (and writer output == independent encoding)
 		var wb bytes.Buffer
 		w := proto.NewWriter(&wb, 64)
-		for _, args := range src {
+		wsrc := src
+		if len(helds) == len(src) {
+			// what the decoder handed out (and the harness has held since) is what gets encoded for the target
+			wsrc = nil
+			for _, h := range helds {
+				wsrc = append(wsrc, append([][]byte{[]byte(h.name)}, h.argv...))
+			}
+		}
+		for _, args := range wsrc {
 			ia := make([]interface{}, len(args))
 			for k := range args {
 				ia[k] = args[k]
@@ -213,7 +243,8 @@ func main() {
 		}
 		_ = acc
 		id += *shards
-		tr.Emit(map[string]interface{}{"id": id, "site": "RoundTrip", "start": start, "hb": zero, "cmds": lensAll, "obs": os3})
+		noInl := make([]bool, len(lensAll))
+		tr.Emit(map[string]interface{}{"id": id, "site": "RoundTrip", "start": start, "hb": zero, "cmds": lensAll, "inl": noInl, "obs": os3})
 		nObs++
 		if len(samples) < 3 {
 			samples = append(samples, map[string]interface{}{"arg_lengths": lensAll, "heartbeats": c.Hb, "fragments": fr, "bufio": bs, "decoder": os1})
@@ -251,6 +282,12 @@ func main() {
 		// directed: several arguments above 1 MiB in one command and in consecutive commands
 		run(caseLine{Cmds: [][]int{{3, 2 << 20, 2, 1 << 20}, {1, (1 << 20) + 7}, {0}}, Hb: []int{0, 1, 0}})
 		run(caseLine{Cmds: [][]int{{1, 3 << 20}, {1, 1 << 20}, {1, 2 << 20}}, Hb: []int{0, 0, 2}})
+	}
+	// directed: commands in the one-line form between multi-bulk ones
+	if *shard == 0 {
+		run(caseLine{Cmds: [][]int{{3, 5}, {2, 2, 7}, {4}, {1, 1}}, Hb: []int{0, 0, 1, 0}, Inline: []bool{true, false, true, true}})
+		run(caseLine{Cmds: [][]int{{8, 5, 3}, {6, 6}}, Hb: []int{0, 2}, Inline: []bool{true, true}})
+		run(caseLine{Cmds: [][]int{{300, 1}, {1}}, Hb: []int{1, 0}, Inline: []bool{true, false}})
 	}
 	// directed: commands of many arguments (what a bulk loader's RPUSH / SADD / MSET / DEL looks like) - element counts on both
 	// sides of every digit boundary of the array header and of the powers of two an implementation may size buffers by
